@@ -608,6 +608,67 @@ func checkC18(e *Engine, r *Report) {
 			sort.Strings(badFlags)
 			r.Check(okFlags, "x/cpc.ExportGenesis › sequence-dependent deployments are not re-triggered", e.Pos(cpcExp.Pos()), fmt.Sprintf("dynamic-address deploy flags %v exported as false", keysOf(dynFlags)), "ExportGenesis sets a genesis flag ("+strings.Join(badFlags, ", ")+") that makes InitGenesis deploy a contract at an address derived from the module account's sequence: the re-imported chain has that contract at another address, the sequence advances, and a second export differs from the first")
 		}
+		// cpc: the deployments InitGenesis repeats for state-exported / unconditional flags (fixed-address precompiles) can fail only
+		// for reasons inside the module (its own registry, the metadata): auth and bank are imported BEFORE cpc, so a refusal that
+		// depends on what those modules hold (an account at the precompile's address) makes a legitimately exported state
+		// impossible to import
+		{
+			cpcInit := e.Fn(EV+"/x/cpc", "InitGenesis")
+			dynName := func(f *ssa.Function) bool { return strings.Contains(f.Name(), "Erc20") }
+			reach := map[*ssa.Function]bool{}
+			var work []*ssa.Function
+			for _, c := range callsIn(cpcInit, false, func(c ssa.CallInstruction) bool {
+				sc := c.Common().StaticCallee()
+				return sc != nil && pkgPathOf(sc) == pkgCpcKeeper && strings.HasPrefix(sc.Name(), "Deploy") && !dynName(sc)
+			}) {
+				work = append(work, c.Common().StaticCallee())
+			}
+			for len(work) > 0 {
+				f := work[len(work)-1]
+				work = work[:len(work)-1]
+				if reach[f] || f.Blocks == nil {
+					continue
+				}
+				reach[f] = true
+				for _, c := range callsIn(f, true, func(ssa.CallInstruction) bool { return true }) {
+					if sc := c.Common().StaticCallee(); sc != nil && pkgPathOf(sc) == pkgCpcKeeper {
+						work = append(work, sc)
+					}
+				}
+			}
+			var foreign []string
+			for f := range reach {
+				for _, i := range ifs(f) {
+					// one side must be a failure exit (error return or panic)
+					if _, isExit := errorExitGuard(f, i, func(ssa.CallInstruction) bool { return false }); !isExit && !endsInPanicRegion(i.Block().Succs[0]) && !endsInPanicRegion(i.Block().Succs[1]) {
+						continue
+					}
+					sl := backSlice(i.Cond, SliceOpts{ThroughCallArgs: alwaysThrough})
+					for _, c := range sl.Calls() {
+						recv := c.Call.Value
+						if !c.Call.IsInvoke() {
+							if len(c.Call.Args) == 0 {
+								continue
+							}
+							recv = c.Call.Args[0]
+						}
+						fv := fieldVar(resolveLocal(recv))
+						if u, isU := resolveLocal(recv).(*ssa.UnOp); isU && fv == nil {
+							fv = fieldVar(u.X)
+						}
+						if fv == nil || !strings.HasSuffix(fv.Name(), "Keeper") {
+							continue
+						}
+						tp := namedTypePath(fv.Type())
+						if tp != "" && !strings.HasPrefix(tp, EV+"/x/cpc") {
+							foreign = append(foreign, fnKey(f)+" tests "+fv.Name()+"."+calleeName(c)+" at "+e.Pos(i.Cond.Pos()))
+						}
+					}
+				}
+			}
+			sort.Strings(foreign)
+			r.Check(len(foreign) == 0 && len(reach) >= 2, "x/cpc.InitGenesis › re-deployment refuses only for module-internal reasons", e.Pos(cpcInit.Pos()), itoa(len(reach))+" functions on the import-time deployment path, no failure decided by another module's state", "an import-time deployment can be refused because of another module's state ("+strings.Join(dedup(foreign), "; ")+"): an exported state in which that holds (e.g. coins were sent to the precompile's address, so an account exists there) cannot be imported — InitChain panics")
+		}
 		// the iteration helpers export/import are built on hand over every entry
 		{
 			chk, probs := iterationHelpersComplete(e)
